@@ -181,7 +181,12 @@ Proof. exact input_lazy_app. Qed.
 
 (** the specification reproduces the three published empty-message vectors and
     the 18 vectors of the crate's test suite *)
-Definition C05_kats := Spec.KAT_Skein.all_kats.
+Definition C05_kats :=
+  (Spec.KAT_Skein.all_kats,
+   (* Skein 1.3 paper, appendix C: independent of the crate's test data *)
+   Spec.KAT_Skein.paper_skein256_ff, Spec.KAT_Skein.paper_skein256_32, Spec.KAT_Skein.paper_skein256_64,
+   Spec.KAT_Skein.paper_skein512_ff, Spec.KAT_Skein.paper_skein512_64, Spec.KAT_Skein.paper_skein512_128,
+   Spec.KAT_Skein.paper_skein1024_ff).
 
 (** non-vacuity: the hypotheses of the conformance theorems are satisfiable, and
     the model itself (three update calls, all four profile/unroll settings)
